@@ -13,6 +13,7 @@
 #include <core/core.h>
 #include <datatypes/array.h>
 #include <gvt/gvt.h>
+#include <verif_hooks.h>
 
 static __thread dyn_array(struct lp_msg *) free_list = {0};
 static __thread dyn_array(struct lp_msg *) at_gvt_list = {0};
@@ -58,6 +59,7 @@ struct lp_msg *msg_allocator_alloc(unsigned payload_size)
 	} else {
 		ret = array_pop(free_list);
 	}
+	VH(VH_MSG_ALLOC, ret, payload_size, 0);
 	ret->pl_size = payload_size;
 	return ret;
 }
@@ -68,6 +70,7 @@ struct lp_msg *msg_allocator_alloc(unsigned payload_size)
  */
 void msg_allocator_free(struct lp_msg *msg)
 {
+	VH(VH_MSG_FREE, msg, 0, 0);
 	if(likely(msg->pl_size <= MSG_PAYLOAD_BASE_SIZE))
 		array_push(free_list, msg);
 	else
@@ -80,6 +83,7 @@ void msg_allocator_free(struct lp_msg *msg)
  */
 void msg_allocator_free_at_gvt(struct lp_msg *msg)
 {
+	VH(VH_MSG_FREE_AT_GVT, msg, 0, 0);
 	array_push(at_gvt_list, msg);
 }
 
@@ -92,6 +96,7 @@ void msg_allocator_on_gvt(simtime_t current_gvt)
 	for(array_count_t i = array_count(at_gvt_list); i-- > 0;) {
 		struct lp_msg *msg = array_get_at(at_gvt_list, i);
 		if(msg->dest_t < current_gvt) {
+			VH(VH_MSG_GVT_RELEASE, msg, VH_BITS(current_gvt), 0);
 			msg_allocator_free(msg);
 			array_lazy_remove_at(at_gvt_list, i);
 		}
